@@ -150,6 +150,7 @@ class Exec:
         self.fresh_per_entry = fresh_per_entry
         self.exit_eq = exit_eq or {}      # header block -> (phi inst id, Lf): value of that induction variable when the loop is left through its header test
         self.callee_writes = callee_writes or {}   # callee -> {arg index: (offset, nbytes)} it may write (else: whole object)
+        self.hdp_origin = {}          # ("hdp", phi id) -> object the loop-carried pointer walks through (from its value on entry)
         self.head_consts = dict(head_consts or {})  # phi id -> concrete value the generic iteration starts with (a loop-carried helper index with a finite orbit)
         # guarded bottom-tested loops ("if (n >= 4) do { ... } while (n >= 4);") summarised as the top-tested loop they are equivalent to:
         # guard block -> description, latch block -> description (see _find_rotated)
@@ -569,9 +570,13 @@ class Exec:
                                 break
                             ty = I.get("ty") or ""
                             if I.id in self.head_consts:
-                                n.env[("i", I.id)] = Lf.c(self.head_consts[I.id])
+                                hv_ = self.head_consts[I.id]
+                                n.env[("i", I.id)] = hv_ if isinstance(hv_, Lf) else Lf.c(hv_)
                             elif ty.endswith("*"):
                                 n.env[("i", I.id)] = Lf.s(("hdp", I.id))
+                                ini_ = q.env.get(("init", I.id))
+                                if ini_ is not None and not is_word(ini_) and ini_.base()[0] is not None:
+                                    self.hdp_origin[("hdp", I.id)] = self._root(ini_.base()[0])
                             elif I.bits and (is_word(q.env.get(("init", I.id))) or (self.word_phis and self.word_phis(I, q.env.get(("init", I.id))))):
                                 n.env[("i", I.id)] = gf2.sym_word(("hdw", I.id), I.bits)
                             else:
@@ -881,6 +886,9 @@ class Exec:
             d = d.add(Lf({syms[0]: 1}), -coef).add(Lf({qs: cb, rs: 1, 1: -k0}), coef)
         return d
 
+    def _root(self, obj):
+        return self.hdp_origin.get(obj, obj) if obj[0] == "hdp" else obj
+
     def _decide(self, p, c, ranges=True):
         if isinstance(c, tuple) and c and c[0] == "icmp":
             _, pred, a, b = c
@@ -888,6 +896,13 @@ class Exec:
                 return None         # a comparison of comparison results (boolean data): not decided here
             if not is_word(a) and not is_word(b):
                 sa, sb = self.subst(p, a), self.subst(p, b)
+                if pred in ("eq", "ne"):
+                    # pointers into different objects are different (distinct parameters are assumed not to overlap; locals never do)
+                    oa, ob_ = sa.base()[0], sb.base()[0]
+                    if oa is not None and ob_ is not None:
+                        ra, rb = self._root(oa), self._root(ob_)
+                        if ra != rb and ra[0] in ("arg", "alloca", "glob") and rb[0] in ("arg", "alloca", "glob"):
+                            return pred == "ne"
                 ka, kb = sa.const(), sb.const()
                 if ka is not None and kb is not None:
                     return ir.eval_icmp(pred, ka & ((1 << 64) - 1), kb & ((1 << 64) - 1), 64)
